@@ -55,6 +55,18 @@ def trace_correspondence(ctx, cases):
     """cases: list of (nsrc, toks, expected_printed). Pipes to the Lean driver."""
     if not cases:
         return {'component': 'coord', 'cases': 0, 'disagreements': [], 'distinct': 0, 'samples': []}
+    # PathIds of sources for which no worker was spawned (empty / too small / unsupported files are
+    # rejected before the loop) never occur in the trace: renumber the ones that do, keeping order
+    norm = []
+    for n, toks, p in cases:
+        ids = sorted({int(t.split(':')[1]) for t in toks if ':' in t})
+        ren = {old: new for new, old in enumerate(ids)}
+        toks2 = [':'.join([t.split(':')[0], str(ren[int(t.split(':')[1])])] + t.split(':')[2:]) if ':' in t else t for t in toks]
+        if ids:
+            norm.append((len(ids), toks2, p))
+    cases = norm
+    if not cases:
+        return {'component': 'coord', 'cases': 0, 'disagreements': [], 'distinct': 0, 'samples': []}
     reqs = ['coord %d %s' % (n, ' '.join(toks)) for n, toks, _ in cases]
     impl = ['ok printed=%d merged=true fin=true broke=false' % p for _, _, p in cases]
     rc, out, err, w = core.run([core.DRV], input=('\n'.join(reqs) + '\n').encode(), timeout=600)
